@@ -14,7 +14,7 @@ runs = re.findall(r"--- check (C\d+) quick seed (\d+) on changed tree\n(.*?)rc=(
 caught = {}
 for c, seed, body, rc in runs:
     caught.setdefault(c, []).append({"seed": int(seed), "rc": int(rc), "violation": (re.search(r"detail: (.*)", body).group(1)[:300] if "VIOLATION" in body else None)})
-dst = "/verif/seeded/%s-%s" % (pid, letter if rnd == "1" else ({"A": "E", "B": "F"} if rnd == "5" else {"A": "C", "B": "D"})[letter])
+dst = "/verif/seeded/%s-%s" % (pid, letter if rnd == "1" else ({"A": "G", "B": "H"} if rnd == "6" else {"A": "E", "B": "F"} if rnd == "5" else {"A": "C", "B": "D"})[letter])
 os.makedirs(dst, exist_ok=True)
 shutil.copy(patch, dst + "/patch.diff"); shutil.copy(demo, dst + "/demo.py")
 if os.path.exists(notes): shutil.copy(notes, dst + "/notes.md")
